@@ -291,7 +291,9 @@ pub fn check_dec(be: Backend, r: &Ref, ty: &str, b: &[u8], single_fault: bool, g
     res.events = ev;
     match got {
         RDec::Crash(m) => {
-            res.fails.push(rf("decode", "crash", m.clone()));
+            // C++: two builds printing different lines is told apart from a process that died
+            let kind = if m.starts_with("sanitizer build and NDEBUG build disagree") { "crash:builds-disagree" } else { "crash" };
+            res.fails.push(rf("decode", kind, m.clone()));
             res.outcome = "crash".into();
         }
         RDec::Err { class, .. } if class == "NoDeclaredFromBytes" => {
